@@ -154,21 +154,24 @@ impl<'tcx> Ctx<'tcx> {
                     None => String::new(),
                 };
                 let cs = sm.lookup_char_pos(data.call_site.lo());
+                let cs_hi = sm.lookup_char_pos(data.call_site.hi());
                 let csf = format!("{}", cs.file.name.prefer_local_unconditionally());
-                let _ = write!(chain_key, "{kind}|{krate}|{csf}|{}|", cs.line);
-                chain.push((kind, krate, csf, cs.line));
+                let _ = write!(chain_key, "{kind}|{krate}|{csf}|{}|{}|{}|{}|", cs.line, cs.col.0, cs_hi.line, cs_hi.col.0);
+                chain.push((kind, krate, csf, cs.line, cs.col.0, cs_hi.line, cs_hi.col.0));
             }
             if let Some(i) = self.exp_idx.get(&chain_key) {
                 exp = *i as i128;
             } else {
                 let i = self.exps.len();
                 let mut arr = Vec::new();
-                for (kind, krate, csf, line) in chain {
+                for (kind, krate, csf, line, col, hi_line, hi_col) in chain {
                     let fi = self.file(csf);
                     arr.push(J::Obj(vec![
                         ("m", js(kind)),
                         ("crate", js(krate)),
                         ("cs", J::Arr(vec![J::Int(fi as i128), J::Int(line as i128)])),
+                        // extent of the macro invocation: [lo line, lo col, hi line, hi col]
+                        ("ext", J::Arr(vec![J::Int(line as i128), J::Int(col as i128), J::Int(hi_line as i128), J::Int(hi_col as i128)])),
                     ]));
                 }
                 self.exps.push(J::Arr(arr));
